@@ -188,6 +188,30 @@ def check(ctx: Ctx) -> list[RuleResult]:
             r2.ok({"handler": f.short, "code": code[1:], "attaches_via": list(callees)})
         else:
             r2.fail(f"{f.short}:{code}", f.loc(), f"{f.short} has no branch on Code.{code} that reaches {' / '.join(callees)}: the reply to the probe would be ignored")
+    # the system's 000C branch passes every role that is probed on to the zones: its role filter, folded for each probed role (the
+    # zone classes' actuator roles and the sensor role), lets all of them through - a filter rewritten as a range over the role
+    # codes silently drops a role that is not contiguous with the others (electric zones: 0x11)
+    from .common import Unfoldable as _Unf2
+    from .common import fold_expr as _fold2
+
+    mzh = repo.func(f"{H}.MultiZone._handle_msg")
+    role_tests = [n for n in own_nodes(mzh.node) if isinstance(n, ast.If) and "SZ_ZONE_TYPE" in norm(n.test) and n.body and isinstance(n.body[-1], ast.Return)]
+    if not role_tests:
+        raise AnalysisError("MultiZone._handle_msg: the 000C role filter was not found")
+    subj = next((norm(x) for x in ast.walk(role_tests[0].test) if isinstance(x, ast.Subscript) and "SZ_ZONE_TYPE" in norm(x.slice)), None)
+    for role in sorted(seen_roles | {SEN}):
+        r2.instances += 1
+        r2.nontrivial += 1
+        try:
+            dropped2 = bool(_fold2(mzh.node, role_tests[0].test, {subj: role}, ctx.consts, mzh))
+        except (_Unf2, TypeError):
+            r2.notes.append(f"MultiZone._handle_msg: the role filter `{norm(role_tests[0].test)[:60]}` does not fold for role {role} (undecided)")
+            r2.ok({"role": role, "filter": "undecided"})
+            continue
+        if dropped2:
+            r2.fail(f"{mzh.short}:probed-role-filtered:{role}", mzh.loc(role_tests[0]), f"the system's 000C branch returns early for role {role} (`{norm(role_tests[0].test)[:70]}`), although zones of that class probe RQ|000C|zz{role}: the replies never reach the zone, so its actuators are never learnt")
+        else:
+            r2.ok({"role": role, "passes_the_000C_role_filter": True})
     out.append(r2)
 
     # ---- R3 ---------------------------------------------------------------------------
@@ -224,6 +248,64 @@ def check(ctx: Ctx) -> list[RuleResult]:
         repo.func(f"{EB}._MessageDB._msgs"),
     ]
     closure_rule(ctx, r3, ea, [poll, disc], [], "the discovery poller (it would end polling for this entity)", ignore=["asyncio.exceptions.CancelledError", "builtins.NotImplementedError", "builtins.OverflowError"], cut=cut)
+    # the poller's own bookkeeping: a table entry that was just set to None in this block is not dereferenced further down the same
+    # block (the failure branch clears `last_pkt`; formatting its `.dtm` there raises AttributeError and ends this entity's polling)
+    r3.instances += 1
+    r3.nontrivial += 1
+    none_derefs = []
+    for g in [disc] + list(disc.nested.values()):
+        for blk_owner in own_nodes(g.node):
+            for fld in ("body", "orelse", "finalbody"):
+                blk = getattr(blk_owner, fld, None)
+                if not isinstance(blk, list):
+                    continue
+                nulled: dict[str, ast.AST] = {}
+                for st in blk:
+                    if not isinstance(st, ast.stmt):
+                        continue
+                    for x in ast.walk(st):
+                        if isinstance(x, ast.Attribute) and isinstance(x.ctx, ast.Load) and norm(x.value) in nulled and not isinstance(st, (ast.If, ast.While, ast.For, ast.Try)):
+                            none_derefs.append((g, x, nulled[norm(x.value)]))
+                    if isinstance(st, ast.Assign):
+                        for t in st.targets:
+                            if isinstance(st.value, ast.Constant) and st.value.value is None:
+                                nulled[norm(t)] = st
+                            else:
+                                nulled.pop(norm(t), None)
+                    elif isinstance(st, (ast.If, ast.While, ast.For, ast.Try, ast.With)):
+                        nulled.clear()
+    # ...and an entry of the polling table that is None at some time (cleared on failure, or not set yet) is only dereferenced under
+    # a test of it
+    from .common import edge_implies as _ei3
+    from .common import facts_at as _fa3
+
+    none_keys: set[str] = set()
+    for g in repo.funcs.values():
+        if g.cls is None or g.cls.name != "_Discovery":
+            continue
+        for n in own_nodes(g.node):
+            if isinstance(n, ast.Assign) and isinstance(n.value, ast.Constant) and n.value.value is None:
+                for t in n.targets:
+                    if isinstance(t, ast.Subscript):
+                        none_keys.add(norm(t.slice))
+            elif isinstance(n, ast.Dict):
+                for k, v in zip(n.keys, n.values):
+                    if k is not None and isinstance(v, ast.Constant) and v.value is None:
+                        none_keys.add(norm(k))
+    for g in [disc] + list(disc.nested.values()):
+        for x in own_nodes(g.node):
+            if isinstance(x, ast.Attribute) and isinstance(x.ctx, ast.Load) and isinstance(x.value, ast.Subscript) and norm(x.value.slice) in none_keys:
+                st3 = x
+                while not isinstance(st3, ast.stmt):
+                    st3 = st3.parent  # type: ignore[attr-defined]
+                goal3 = ast.parse(norm(x.value), mode="eval").body
+                if not any(_ei3(t, v, goal3) for t, v in _fa3(st3)):
+                    none_derefs.append((g, x, ast.parse(f"{norm(x.value)} = None").body[0]))
+    if none_derefs:
+        g, x, st0 = none_derefs[0]
+        r3.fail(f"{g.short}:none-dereferenced:{norm(x)[:40]}", g.loc(x), f"`{norm(x)[:50]}` is read although `{norm(st0)[:50]}` can be in force (the entry is cleared on a failed send and unset before the first success), with no test of it: AttributeError on None inside discover(), which ends this entity's discovery poller for good")
+    else:
+        r3.ok({"None_dereferences_in_discover": 0})
     r3.notes.append(
         "cut points: Gateway.async_send_cmd (error family decided by C07.R2, fenced by send_disc_cmd); discovery_cmds (the library's own "
         "commands: C03); _MessageDB._get_msg_by_hdr's explicit `raise LookupError` (header mismatch between a stored message and the lookup key) "
